@@ -70,6 +70,21 @@ def loc_ops(rng, nops, base=None, rules=True, clear_prob=0.0):
             if rng.random() < 0.3:
                 ev[rng.choice(gen.KEYS)] = gen.scalar(rng)
             ops.append({"op": "event", "event": ev_ok(ev)})
+    if rng.random() < 0.3:
+        # directed: something that dies with something else (a fact naming another in deleteWith; the `disabled` flag of a rule),
+        # then the removal, then reads / a re-add under the same id: whatever is dropped must be dropped from storage too,
+        # or a reloading cache setting brings it back
+        d = rng.choice(base)
+        at = rng.randint(0, max(0, len(ops) // 4))
+        if rng.random() < 0.5:
+            seq = [{"op": "addFact", "id": "dx", "fact": dict(d)}, {"op": "addFact", "id": "dy", "fact": dict(d, deleteWith=["dx"])},
+                   {"op": "remFact", "id": "dx"}, {"op": "getFact", "id": "dy"}, {"op": "size"}]
+        else:
+            rule = rule_for(rng, d, idxok=True)
+            rule["when"]["pattern"] = uniq_vars(rule["when"]["pattern"])
+            seq = [{"op": "addRule", "id": "dr", "rule": rule}, {"op": "enableRule", "id": "dr", "enable": False}, {"op": "remRule", "id": "dr"},
+                   {"op": "addRule", "id": "dr", "rule": copy.deepcopy(rule)}, {"op": "event", "event": ev_ok(dict(d))}, {"op": "size"}]
+        ops[at:at] = seq
     return ops
 
 
@@ -92,7 +107,7 @@ def sys_history(rng, nlocs=None, nops=None, check_stream=False, cache_ttl=False,
     ops = []
     for _ in range(nops):
         l = rng.choice(locs)
-        op = per[l].pop()
+        op = per[l].pop(0)
         op["loc"] = l
         ops.append(op)
         if cache_ttl and rng.random() < 0.12:
